@@ -16,6 +16,7 @@ import (
 
 	"cuelang.org/go/internal/par"
 	"cuelang.org/go/internal/robustio"
+	"cuelang.org/go/internal/verifhook"
 	"cuelang.org/go/mod/modfile"
 	"cuelang.org/go/mod/modregistry"
 	"cuelang.org/go/mod/module"
@@ -111,11 +112,13 @@ func (c *Cache) Fetch(ctx context.Context, mv module.Version) (module.SourceLoc,
 	if err != nil {
 		return module.SourceLoc{}, err
 	}
+	verifhook.At("fetch.zip-ready")
 
 	unlock, err := c.lockVersion(mv)
 	if err != nil {
 		return module.SourceLoc{}, err
 	}
+	verifhook.At("fetch.locked")
 	defer unlock()
 
 	// Check whether the directory was populated while we were waiting on the lock.
@@ -148,6 +151,7 @@ func (c *Cache) Fetch(ctx context.Context, mv module.Version) (module.SourceLoc,
 	if err != nil {
 		return module.SourceLoc{}, err
 	}
+	verifhook.At("fetch.cleaned")
 
 	// Extract the module zip directory at its final location.
 	//
@@ -170,16 +174,20 @@ func (c *Cache) Fetch(ctx context.Context, mv module.Version) (module.SourceLoc,
 	if err := robustio.WriteFile(partialPath, nil, 0666); err != nil {
 		return module.SourceLoc{}, err
 	}
+	verifhook.At("fetch.partial-written")
 	if err := modzip.Unzip(dir, mv, zipfile); err != nil {
 		if rmErr := RemoveAll(dir); rmErr == nil {
 			os.Remove(partialPath)
 		}
 		return module.SourceLoc{}, err
 	}
+	verifhook.At("fetch.unzipped")
 	if err := os.Remove(partialPath); err != nil {
 		return module.SourceLoc{}, err
 	}
+	verifhook.At("fetch.partial-removed")
 	makeDirsReadOnly(dir)
+	verifhook.At("fetch.done")
 	return c.dirToLocation(dir), nil
 }
 
@@ -244,6 +252,7 @@ func (c *Cache) downloadZip1(ctx context.Context, mod module.Version, zipfile st
 	if err != nil {
 		return err
 	}
+	verifhook.At("zip.tmp-created")
 	defer func() {
 		if err != nil {
 			f.Close()
@@ -265,12 +274,14 @@ func (c *Cache) downloadZip1(ctx context.Context, mod module.Version, zipfile st
 	if _, err := io.Copy(f, r); err != nil {
 		return fmt.Errorf("failed to get module zip contents: %v", err)
 	}
+	verifhook.At("zip.copied")
 	if err := f.Close(); err != nil {
 		return err
 	}
 	if err := os.Rename(f.Name(), zipfile); err != nil {
 		return err
 	}
+	verifhook.At("zip.renamed")
 	// TODO should we check the zip file for well-formedness?
 	// TODO: Should we make the .zip file read-only to discourage tampering?
 	return nil
